@@ -313,6 +313,18 @@ def opAliasRec (args : List String) (impl : String) : Result :=
                else if isBad impl then [s!"C15 {fmt}-parser-{impl}"] else [] }
   | _ => noModel
 
+/-- unf-user <docs>: an Unfolder configured with user unfolders (outside the mirror's universe),
+reused over a history of documents vs a new one per document.  The model's observation is the
+specification itself: reused = fresh. -/
+def opUnfUser (impl : String) : Result :=
+  { model := some "same",
+    fails :=
+      if impl.startsWith "differ" then
+        [s!"C14 reused-unfolder-with-user-unfolders-differs-from-new {impl.take 200}",
+         s!"C17 reused-unfolder-with-user-unfolders-differs-from-new {impl.take 200}"]
+      else if impl.startsWith "panic" then [s!"C14 unfold-panic-with-user-unfolders {impl}"]
+      else [] }
+
 def runLine (op : String) (impl : String) : Result :=
   match op.splitOn " " with
   | "escsets" :: _ => opEscSets impl
@@ -338,6 +350,7 @@ def runLine (op : String) (impl : String) : Result :=
   | "unf-type" :: args => opUnfType args impl
   | "unf-seq" :: args => opUnfSeq args impl
   | "fu" :: args => opFu args impl
+  | "unf-user" :: _ => opUnfUser impl
   | "alias" :: args => opAlias args impl
   | "aliasrec" :: args => opAliasRec args impl
   | "unfx" :: args => opUnfWhatIf args impl
